@@ -28,7 +28,7 @@ def run_driver(exe, scenarios, threads, tag, timeout=240, perturb=0):
     results = {}
     pending = list(range(len(scenarios)))
     rounds = 0
-    while pending and rounds < 200:
+    while pending and rounds < len(scenarios) + 10:
         rounds += 1
         if os.path.exists(outp):
             os.remove(outp)
